@@ -36,6 +36,8 @@ func ErrByName(name string) error {
 		return syscall.EACCES
 	case "ENOENT":
 		return syscall.ENOENT
+	case "EISDIR":
+		return syscall.EISDIR
 	case "UNEXPECTED_EOF":
 		return io.ErrUnexpectedEOF
 	}
@@ -536,6 +538,14 @@ func Create(name string) (*File, error) {
 		W.Event("create %s err=%s", name, e)
 		return nil, pathErr("open", name, e)
 	}
+	// a fault on a directory ("dir/") hits every file created below it
+	for _, k := range sortedOpenErrDirs(d.OpenErr) {
+		if e := d.OpenErr[k]; e != "" && strings.HasPrefix(name, k) {
+			W.Stat("fault.open." + e)
+			W.Event("create %s err=%s (directory %s)", name, e, k)
+			return nil, pathErr("open", name, e)
+		}
+	}
 	node := d.Nodes[name]
 	if node == nil {
 		node = &Node{}
@@ -572,6 +582,17 @@ func OpenFile(name string, flag int, perm os.FileMode) (*File, error) {
 }
 
 var tempSeq int
+
+func sortedOpenErrDirs(m map[string]string) []string {
+	var out []string
+	for k := range m {
+		if strings.HasSuffix(k, "/") {
+			out = append(out, k)
+		}
+	}
+	sort.Strings(out)
+	return out
+}
 
 // CreateTemp replaces os.CreateTemp / ioutil.TempFile on the simulated disk.
 func CreateTemp(dir, pattern string) (*File, error) {
